@@ -41,6 +41,11 @@ MODELS = {
                   variants=[],
                   no_exempt=[("D_C07_f", "MC_PauseA.cfg"), ("D_C07_b", "MC_PauseD.cfg"), ("D_C03_p", "MC_PauseC.cfg")],
                   live=dict(quick=["MC_Live_pauseB.cfg", "MC_Live_pauseD.cfg"], thorough=["MC_Live_pauseB.cfg", "MC_Live_pauseD.cfg", "MC_Live_pauseB_thorough.cfg"])),
+    # rollout slots, split and remove in the design model
+    "rollout": dict(module="MC_Rollout.tla", quick=["MC_RolloutA.cfg", "MC_RolloutC.cfg"],
+                    thorough=["MC_RolloutA.cfg", "MC_RolloutB.cfg", "MC_RolloutC.cfg", "MC_RolloutD.cfg"],
+                    witnesses=[("W_ServedByRollout", "MC_RolloutA.cfg")], variants=[], no_exempt=[("D_C02", "MC_RolloutC.cfg")],
+                    sim_cfg="MC_RolloutA.cfg"),
     # the snapshot writer (C12): no schedules are derived from it; controls = variants of the code before repair F5
     "snap": dict(module="MC_Snap.tla", quick=["MC_Snap_quick.cfg"], thorough=["MC_Snap_quick.cfg", "MC_Snap_thorough.cfg"],
                  controls=[("MC_Snap_pinned_complete.cfg", "S_Complete"), ("MC_Snap_pinned_current.cfg", "S_Current"),
